@@ -155,23 +155,11 @@ Fixpoint load_sets (d : db rval) (l : list rs_in) : db rval * list bool :=
     (d'', ok :: oks)
   end.
 
-Fixpoint tadd_all (t : tree rval) (l : list (addop rval)) : option (tree rval) :=
-  match l with
-  | [] => Some t
-  | a :: r => match tree_add same_src t (ao_expr a) (ao_val a) (ao_bt a) with
-              | TOk t' => tadd_all t' r
-              | _ => None
-              end
-  end.
-
 Fixpoint tload_sets (t : tree rval) (l : list rs_in) : tree rval * list bool :=
   match l with
   | [] => (t, [])
   | s :: r =>
-    let (t1, ok) := match tadd_all t (ruleset_adds (s_src s) (s_rules s)) with
-                    | Some t' => (t', true)
-                    | None => (t, false)
-                    end in
+    let (t1, ok) := tree_add_ruleset t (s_src s) (s_rules s) in
     let (t2, oks) := tload_sets t1 r in
     (t2, ok :: oks)
   end.
